@@ -626,6 +626,13 @@ func cmdC06(c *ctx) {
 		case g.safe:
 			t = tI32
 			e = g.safeExpr(depth)
+			if (i/5)%4 == 2 {
+				// an unsuffixed literal between 2^31 and 2^32 in a u32 context (derived from i: the random stream of
+				// the other programs stays as it was)
+				t = tU32
+				e = &wexpr{k: "conc", ty: tU32, args: []*wexpr{{k: "aint", aval: 2147483648 + int64(uint32(i)*2654435761%2147483648)}}, konst: true}
+				c.count("modsafe-u32-literal-above-int-max")
+			}
 		case knob == "vecf2u":
 			t = tVec(2+c.rng.Intn(3), tU32)
 			src := g.leaf(t.withScalar(tF32))
